@@ -25,8 +25,11 @@ def run(kind="popen"):
         sib = gw.remote_exec("for x in channel: channel.send(x + 1)")
         sib.send(1)
         first = sib.receive(10)
-        ch = gw.remote_exec("channel.send('a')")
+        # (the remote code waits for a token: the callback is registered before anything arrives, so its exception is raised in the
+        #  receiver thread and not in this thread inside setcallback())
+        ch = gw.remote_exec("channel.receive()\nchannel.send('a')")
         ch.setcallback(cb, endmarker=None)
+        ch.send("go")
         for _ in range(300):
             if None in got:
                 break
